@@ -30,10 +30,23 @@ func TestC15ReadOnlyTrace(t *testing.T) {
 		if rapid.Bool().Draw(t, "unsupported") {
 			writeRaw(s.base+"/weird.user", "bcrypt:1:9:AAAA:BBBB\n")
 		}
+		// states ordinary use does not produce but a crash, a restore or an admin's touch does: an empty hash file (the
+		// reservation of a killed add), a file without a line terminator, a directory under a hash-file name, leftovers in the work area
+		odd := rapid.Bool().Draw(t, "oddfiles")
+		if odd {
+			writeRaw(s.base+"/empty.user", "")
+			writeRaw(s.base+"/void.admin", "")
+			writeRaw(s.base+"/noeol.user", "argon2id:1:1:AAAA:BBBB")
+			syscall.Mkdir(s.base+"/dir.user", 0o700)
+			syscall.Mkdir(s.base+"/.tmp", 0o700)
+			writeRaw(s.base+"/.tmp/alice.user", "left over\n")
+			writeRaw(s.base+"/.tmp/123456", "")
+			vlib.Class("readonly-traced-on-odd-store-states")
+		}
 		var ops []Op
 		for i, n := 0, rapid.IntRange(1, 8).Draw(t, "n"); i < n; i++ {
 			k := rapid.SampledFrom([]string{"authenticate", "authenticate", "exists", "list", "listfull", "check"}).Draw(t, "kind")
-			u := rapid.SampledFrom([]string{"alice", "root", "ghost", "weird", "../store/alice", ""}).Draw(t, "user")
+			u := rapid.SampledFrom([]string{"alice", "root", "ghost", "weird", "../store/alice", "", "empty", "void", "noeol", "dir"}).Draw(t, "user")
 			pw := rapid.SampledFrom([]string{"alicepw", "rootpw", "wrong", ""}).Draw(t, "pw")
 			ops = append(ops, Op{Kind: k, User: u, PW: pw})
 		}
